@@ -88,18 +88,34 @@ def csiFinal (cfg : Cfg) (o : Orc) (st : St) (isStart : Bool) (ch : Char) : R :=
     match nums with
     | [n] => ret d (if n = 5 ∨ n = 6 ∨ n = 255 then .ok else .err)
     | _ => ret d .err
-  else if ch = 'X' then ret d (if nums.isEmpty then .err else .ok)
+  else if ch = 'X' then
+    -- ECH: `erase_charcter` runs first (with 1 when there is no parameter), the parameter count is checked afterwards
+    if EchPanics s c (firstOr nums 1) then .error (.negIndex "erase_charcter: Line::set_char(x)")
+    else ret d (if nums.isEmpty then .err else .ok)
   else if ch = '@' then ret d (if nums.isEmpty then .err else .ok)
   else if ch = 'M' then
-    if cfg.musicOpt = 1 ∨ cfg.musicOpt = 3 then ret (setSt st (.music .style)) .ok
-    else if nums.isEmpty then ret d .ok
-    else ret d (if nums.length ≠ 1 then .err else .ok)
+    if cfg.musicOpt = 1 ∨ cfg.musicOpt = 3 then ret { st with p := { st.p with st := .music .style, mus := musicEnter st.p.mus } } .ok
+    else if nums.isEmpty then
+      -- DL: `if y < lines.len() { remove_terminal_line(y) }`
+      if LineOpPanics s c.y then .error (.negIndex "remove_terminal_line: Layer::remove_line(y) / insert_line(end)") else ret d .ok
+    else if nums.length ≠ 1 then ret d .err
+    else if firstOr nums 1 > 0 ∧ LineOpPanics s c.y then
+      .error (.negIndex "remove_terminal_line: Layer::remove_line(y) / insert_line(end)")
+    else ret d .ok
   else if ch = 'N' then
-    if cfg.musicOpt = 2 ∨ cfg.musicOpt = 3 then ret (setSt st (.music .style)) .ok else ret st .ok
+    if cfg.musicOpt = 2 ∨ cfg.musicOpt = 3 then ret { st with p := { st.p with st := .music .style, mus := musicEnter st.p.mus } } .ok else ret st .ok
   else if ch = '|' then
-    if cfg.musicOpt ≠ 0 then ret (setSt st (.music .style)) .ok else ret st .ok
-  else if ch = 'P' ∨ ch = 'L' then
+    if cfg.musicOpt ≠ 0 then ret { st with p := { st.p with st := .music .style, mus := musicEnter st.p.mus } } .ok else ret st .ok
+  else if ch = 'P' then
     if nums.isEmpty then ret d .ok else ret d (if nums.length ≠ 1 then .err else .ok)
+  else if ch = 'L' then
+    -- IL: `insert_terminal_line(y)` once, or `min(Pn, height)` times
+    if nums.isEmpty then
+      if LineOpPanics s c.y then .error (.negIndex "insert_terminal_line: lines.remove(end) / Layer::insert_line(y)") else ret d .ok
+    else if nums.length ≠ 1 then ret d .err
+    else if firstOr nums 1 > 0 ∧ LineOpPanics s c.y then
+      .error (.negIndex "insert_terminal_line: lines.remove(end) / Layer::insert_line(y)")
+    else ret d .ok
   else if ch = 'J' then
     match nums with
     | [] => ret d .ok
@@ -338,9 +354,12 @@ def addStr (st : St) (cs : List Char) : St := { st with p := { st.p with str := 
 
 /-- one character; `inv` invokes a macro by id -/
 def stepCore (cfg : Cfg) (o : Orc) (inv : Int → St → Res St) (st : St) (ch : Char) : R :=
-  if ¬ RangeOk st.s st.c then .error (.overflow "i32 arithmetic on the cursor / buffer height") else
+  if ¬ (RangeOk st.s st.c ∧ MusicSafe st.p.st st.p.mus ch) then
+    .error (.overflow (if RangeOk st.s st.c then "sound.rs: cur_tempo * pause" else "i32 arithmetic on the cursor / buffer height"))
+  else
   match st.p.st with
-  | .music m => let (ps, out) := musicStep m ch; ret (setSt st ps) out
+  | .music m =>
+    ret { st with p := { st.p with st := (musicStep m st.p.mus ch).1, mus := (musicStep m st.p.mus ch).2.1 } } (musicStep m st.p.mus ch).2.2
   | .esc => escChar st ch
   | .aps => if ch = '\x1b' then ret (setSt st .apsEsc) .ok else ret (addStr st [ch]) .ok
   | .apsEsc =>
@@ -409,6 +428,15 @@ def stepD : Nat → Cfg → (Nat → Orc) → St → Char → R
     stepCore cfg (o st.p.tick) (invoker (stepD d cfg o) (decide (d + 1 = MAX_MACRO_DEPTH))) (tickSt st) ch
 
 def step (cfg : Cfg) (o : Nat → Orc) (st : St) (ch : Char) : R := stepD MAX_MACRO_DEPTH cfg o st ch
+
+/-- the payload of the `CallbackAction::PlayMusic` a *top-level* character hands to the caller: the terminator `0x0E`
+    met in music mode (every music state except `SetOctave`, which reports an error instead).  Tunes that end inside a
+    macro replay are dropped — `invoke_macro_by_id` ignores the actions of the replayed characters. -/
+def playMusicOf (pre : St) (ch : Char) (post : St) : Option (List MAct) :=
+  match pre.p.st with
+  | .music .octave => none
+  | .music _ => if ch = '\x0e' then some post.p.mus.last else none
+  | _ => none
 
 /-- feed a whole stream; an `Err` result of a character does not stop the run (the emulation keeps accepting input) -/
 def run (cfg : Cfg) (o : Nat → Orc) : St → List Char → Res St
